@@ -7,11 +7,19 @@
 //!   hmac.chunked digest key chunk...          hmac::Hmac<D> fed in pieces
 //!   kdf.mnemonic mnemonic flag passphrase     ExtendedPrivateKey::from_mnemonic -> private key; chain code
 //!   kdf.seed seed                             ExtendedPrivateKey::from_seed -> private key; chain code
+//!   kdf.pbkdf2_impl pw salt algo rounds len   KDF::pbkdf2_impl called directly
+//!   digest.oneshot adapter msg                D::digest(msg); output size; block size
+//!   digest.seq adapter start step...          start: d | t | f (Hash160::new(true/false)) | g0=<pre> | g1=<pre> (get_hash_digest)
+//!       steps: u=<d> Update::update, h=<d> Digest::chain, r reverse(), x reset,
+//!              (digest::impl_write! is cfg(feature = "std") of the bsv crate, which has no such feature: no io::Write)
+//!              c clone().finalize_fixed(), f finalize_fixed_reset, i finalize_into_reset, g Digest::finalize_reset;
+//!       prints every output and a final finalize_fixed
 use crate::util::*;
 use bsv::hash::hash160_digest::Hash160;
 use bsv::hash::sha256d_digest::Sha256d;
 use bsv::{get_hash_digest, ExtendedPrivateKey, Hash, PBKDF2Hashes, ReversibleDigest, Sha256r, SigningHash, KDF};
-use digest::{BlockInput, FixedOutput, Reset, Update};
+use digest::generic_array::typenum::Unsigned;
+use digest::{BlockInput, Digest, FixedOutput, Reset, Update};
 use hmac::{Hmac, Mac, NewMac};
 
 fn ok(b: &[u8]) -> String {
@@ -77,6 +85,51 @@ where
     format!("OK:{};{}", show_bytes(&out1), show_bytes(&out2))
 }
 
+fn seq<D>(mut d: D, steps: &[String]) -> String
+where
+    D: Update + BlockInput + FixedOutput + Reset + Default + Clone + ReversibleDigest,
+{
+    let mut outs: Vec<String> = Vec::new();
+    for s in steps {
+        let (c, arg) = match s.split_once('=') {
+            Some((c, a)) => (c, Some(a)),
+            None => (s.as_str(), None),
+        };
+        match (c, arg) {
+            ("u", Some(a)) | ("h", Some(a)) => {
+                let b = match expand(a) {
+                    Some(b) => b,
+                    None => return "BADARG".into(),
+                };
+                match c {
+                    "u" => Update::update(&mut d, &b),
+                    _ => d = Digest::chain(d, &b),
+                }
+            }
+            ("r", None) => d = d.reverse(),
+            ("x", None) => Reset::reset(&mut d),
+            ("c", None) => outs.push(show_bytes(&d.clone().finalize_fixed())),
+            ("f", None) => outs.push(show_bytes(&d.finalize_fixed_reset())),
+            ("i", None) => {
+                let mut o = digest::generic_array::GenericArray::<u8, D::OutputSize>::default();
+                d.finalize_into_reset(&mut o);
+                outs.push(show_bytes(&o));
+            }
+            ("g", None) => outs.push(show_bytes(&Digest::finalize_reset(&mut d))),
+            _ => return "BADARG".into(),
+        }
+    }
+    outs.push(show_bytes(&d.finalize_fixed()));
+    format!("OK:{}", outs.join(";"))
+}
+
+fn oneshot<D>(m: &[u8]) -> String
+where
+    D: Update + BlockInput + FixedOutput + Reset + Default + Clone,
+{
+    format!("{};{};{}", ok(&D::digest(m)), <D as Digest>::output_size(), <D as BlockInput>::BlockSize::to_usize())
+}
+
 fn hmac_chunked<D>(key: &[u8], chunks: &[Vec<u8>]) -> String
 where
     D: Update + BlockInput + FixedOutput + Reset + Default + Clone,
@@ -114,7 +167,8 @@ pub fn run(op: &str, args: &[String]) -> Option<String> {
                 Some(b) => b,
                 None => return Some("BADARG".into()),
             };
-            ok(&fun(&m).to_bytes())
+            let h = fun(&m);
+            format!("{};{}", ok(&h.to_bytes()), h.to_hex())
         }
         "hmac" if f == "chunked" => {
             let (key, chunks) = match (arg_bytes(args, 1), chunks_from(args, 2)) {
@@ -159,7 +213,7 @@ pub fn run(op: &str, args: &[String]) -> Option<String> {
                 _ => None,
             };
             match f {
-                "pbkdf2" => {
+                "pbkdf2" | "pbkdf2_impl" => {
                     if args.len() != 5 {
                         return Some("BADARG".into());
                     }
@@ -167,7 +221,7 @@ pub fn run(op: &str, args: &[String]) -> Option<String> {
                         (Some(a), Some(b), Some(c), Some(d), Some(e)) if d <= u32::MAX as u64 => (a, b, c, d as u32, e as usize),
                         _ => return Some("BADARG".into()),
                     };
-                    let k = KDF::pbkdf2(&pw, Some(salt), algo, rounds, len);
+                    let k = if f == "pbkdf2" { KDF::pbkdf2(&pw, Some(salt), algo, rounds, len) } else { KDF::pbkdf2_impl(&pw, &salt, algo, rounds, len) };
                     format!("OK:{};{}", show_bytes(&k.get_hash().to_bytes()), show_bytes(&k.get_salt()))
                 }
                 "seed" | "mnemonic" => {
@@ -239,6 +293,47 @@ pub fn run(op: &str, args: &[String]) -> Option<String> {
                     "sha256d" => reset::<Sha256d>(rv, n, &chunks),
                     "sha256r" => reset::<Sha256r>(rv, n, &chunks),
                     "hash160" => reset::<Hash160>(rv, n, &chunks),
+                    _ => "BADARG".into(),
+                }
+            }
+            "oneshot" => {
+                if args.len() != 2 {
+                    return Some("BADARG".into());
+                }
+                let m = match arg_bytes(args, 1) {
+                    Some(b) => b,
+                    None => return Some("BADARG".into()),
+                };
+                match args[0].as_str() {
+                    "sha256d" => oneshot::<Sha256d>(&m),
+                    "sha256r" => oneshot::<Sha256r>(&m),
+                    "hash160" => oneshot::<Hash160>(&m),
+                    _ => "BADARG".into(),
+                }
+            }
+            "seq" => {
+                if args.len() < 2 {
+                    return Some("BADARG".into());
+                }
+                let steps = &args[2..];
+                let (sc, sarg) = match args[1].split_once('=') {
+                    Some((c, a)) => (c, Some(a)),
+                    None => (args[1].as_str(), None),
+                };
+                match (args[0].as_str(), sc, sarg) {
+                    ("sha256d", "d", None) => seq(Sha256d::default(), steps),
+                    ("sha256r", "d", None) => seq(Sha256r::default(), steps),
+                    ("hash160", "d", None) => seq(Hash160::default(), steps),
+                    ("hash160", "t", None) => seq(Hash160::new(true), steps),
+                    ("hash160", "f", None) => seq(Hash160::new(false), steps),
+                    ("sha256r", "g0", Some(a)) | ("sha256r", "g1", Some(a)) => {
+                        let m = match expand(a) {
+                            Some(m) => m,
+                            None => return Some("BADARG".into()),
+                        };
+                        let algo = if sc == "g0" { SigningHash::Sha256 } else { SigningHash::Sha256d };
+                        seq(get_hash_digest(algo, &m), steps)
+                    }
                     _ => "BADARG".into(),
                 }
             }
